@@ -2,6 +2,9 @@
 // usage: harness_exe <inputs-file|-> fn1 [fn2 ...]      (functions are called in order; looked up with dlsym)
 // env: VERIF_SEED (default values of inputs not in the file), VERIF_PERTURB=name:delta, VERIF_DERIVS=file
 #include "verif_api.h"
+#include "colvarmodule.h"
+#include "colvarproxy.h"
+#include "colvarproxy_stub.h"
 #include <cstdio>
 #include <cstdlib>
 #include <cstring>
@@ -70,6 +73,7 @@ void verif_out_str(const char *name, const char *s) { printf("OUTS %s %s\n", nam
 void verif_note(const char *text) { }
 void verif_stop(void) { fflush(stdout); exit(fails ? 1 : 0); }
 void verif_log_accesses(int on) { }
+void verif_need_module(void) { static colvarproxy_stub *p = nullptr; if (!p && !cvm::main()) p = new colvarproxy_stub(); }
 }
 
 static void load_kv(const char *path, std::map<std::string, std::string> &m) {
